@@ -199,6 +199,7 @@ fn run(req: &Value) -> Result<Value, String> {
                 }
             }
         }
+        "wordlist.scan" => wordscan(req)?,
         "path.parse" => match strarg(req, "text")?.parse::<hdk::Path>() {
             Ok(p) => {
                 let printed = p.to_string();
@@ -406,6 +407,85 @@ fn hook_op(op: &str, _req: &Value) -> Result<Value, String> {
         }
         _ => Err(format!("unknown op {op}")),
     }
+}
+
+/// High-volume probe of the word lookup: generates `count` tokens from `seed` and reports every token the lookup accepts
+/// (level "search": `Wordlist::search`; level "phrase": the token replaces one word of a valid phrase given to
+/// `Mnemonic::from_phrase`). Whether an accepted token is legitimate is decided by the monitor against its own pinned list.
+#[cfg(feature = "wordscan")]
+fn wordscan(req: &Value) -> Result<Value, String> {
+    let mut x = req["seed"].as_u64().ok_or("missing seed")? | 1;
+    let count = req["count"].as_u64().ok_or("missing count")?;
+    let mode = strarg(req, "mode")?;
+    let level = strarg(req, "level")?;
+    let mut next = move || {
+        x ^= x >> 12;
+        x ^= x << 25;
+        x ^= x >> 27;
+        x.wrapping_mul(0x2545_F491_4F6C_DD1D)
+    };
+    let list = Language::English.wordlist();
+    let base = req.get("phrase").and_then(Value::as_str).unwrap_or("").split(' ').map(str::to_string).collect::<Vec<_>>();
+    let mut accepted = Vec::new();
+    let mut sample = Vec::new();
+    let mut token = String::new();
+    for n in 0..count {
+        token.clear();
+        let r = next();
+        if mode == "random" {
+            let len = 3 + (r % 6) as usize;
+            let mut bits = next();
+            for _ in 0..len {
+                token.push((b'a' + (bits % 26) as u8) as char);
+                bits /= 26;
+            }
+        } else {
+            // one or two edits of a list word
+            let w = list.word((r % 2048) as usize).as_bytes().to_vec();
+            let mut w = w;
+            let edits = 1 + ((r >> 11) % 2) as usize;
+            for _ in 0..edits {
+                let e = next();
+                let pos = ((e >> 8) % (w.len().max(1) as u64)) as usize;
+                let ch = b'a' + ((e >> 24) % 26) as u8;
+                match e % 6 {
+                    0 => w[pos] = ch,
+                    1 => w.insert(pos, ch),
+                    2 if w.len() > 1 => {
+                        w.remove(pos);
+                    }
+                    3 => w.push(ch),
+                    4 if pos + 1 < w.len() => w.swap(pos, pos + 1),
+                    _ => w.truncate(4.max(pos)),
+                }
+            }
+            token.push_str(std::str::from_utf8(&w).unwrap_or("x"));
+        }
+        if n < 3 {
+            sample.push(token.clone());
+        }
+        if level == "search" {
+            if let Some(i) = list.search(&token) {
+                accepted.push(json!({"token": token, "index": i}));
+            }
+        } else {
+            let pos = (next() % base.len() as u64) as usize;
+            let mut words = base.clone();
+            words[pos] = token.clone();
+            if let Ok(m) = Mnemonic::from_phrase(words.join(" ")) {
+                accepted.push(json!({"token": token, "pos": pos, "printed": m.to_phrase()}));
+            }
+        }
+        if accepted.len() > 5000 {
+            break;
+        }
+    }
+    Ok(json!({"ok": {"tested": count, "accepted": accepted, "sample": sample}}))
+}
+
+#[cfg(not(feature = "wordscan"))]
+fn wordscan(_req: &Value) -> Result<Value, String> {
+    Ok(json!({"unavailable": true}))
 }
 
 fn handle(line: &str) -> Value {
